@@ -313,6 +313,17 @@ Lemma enc_array_unfold c x r :
                             | Some buf => write_array c (lenN (x :: r)) buf | None => None end.
 Proof. reflexivity. Qed.
 
+(** the empty array: size 1, count 0, no element constructor; the decoder skips size - 1 = 0 bytes *)
+Lemma rt_array_empty f : RT (S f) (VArray []).
+Proof.
+  intros b rest E. cbn in E. injection E as <-.
+  change (0 + 1) with 1. change (0 mod 256) with 0. cbn [app].
+  rewrite dec_unfold, dec_body_array by auto.
+  unfold dec_seq. cbn -[read_len lenN]. change (1 - 1) with 0.
+  change (read_len 0 rest) with (read_len (lenN (@nil N)) ([] ++ rest)).
+  rewrite read_len_app. reflexivity.
+Qed.
+
 Lemma rt_array f l :
   forallb wf l = true -> lenN l <= MAXCOUNT ->
   match l with
@@ -322,7 +333,7 @@ Lemma rt_array f l :
   RT (S (S f)) (VArray l).
 Proof.
   intros Hwf Hcount Hhom b rest E. destruct l as [|x r].
-  - cbn in E. injection E as <-. reflexivity.
+  - exact (rt_array_empty (S f) b rest E).
   - destruct Hhom as [Hk Hsame]. cbn [forallb] in Hwf. apply andb_true_iff in Hwf. destruct Hwf as [Hwx Hwr].
     rewrite enc_array_unfold in E.
     set (c := acode x) in *.
@@ -453,7 +464,7 @@ Proof.
     + lia.
     + (* fuel 1: only the empty array has depth 1 *)
       destruct l as [|x r]; [|pose proof (depth_pos x); cbn in Hf; lia].
-      intros b rest E. cbn in E. injection E as <-. reflexivity.
+      apply rt_array_empty.
     + apply rt_array; auto; [lia|]. destruct l as [|x r]; [exact I|].
       apply andb_true_iff in Hhom. exact Hhom.
 Qed.
